@@ -23,8 +23,8 @@ other `Props/Pipeline*.lean` files this one has no property id of its own; each 
   Side conditions, exactly (`PlainLine`): the batch reader must read the delivered lines as the same texts — valid
   UTF-8 (follow mode does NOT end on an invalid line and reports nothing: the line's text is `from_utf8_lossy`, an
   external fact; batch mode ends with `FailReadFile`) and no `\r` before the `\n` (follow mode keeps it as content).
-  In CSV format the ONE printer keeps its header state across the clears: finding D63, witnessed by
-  `d63_csv_header_only_on_first_screen`.
+  In CSV format the ONE printer keeps its header state across the clears: finding D65, witnessed by
+  `d65_csv_header_only_on_first_screen`.
 * C19 at program level — `interrupt_is_run_over_lines_delivered_before`, `interrupted_output_is_a_prefix`: an
   interrupt anywhere in the schedule leaves what was written a prefix of what the uninterrupted schedule writes (for an
   aggregate statement: a prefix of its sequence of screens) and adds no error.
@@ -541,10 +541,10 @@ example : ((queriedTable exFacts exDefs "select k from t".toList).map (fun t => 
 example : ranOf (followLines exFacts exDefs "select k from t".toList .text [strBytes "a;1", strBytes "zzz", strBytes "b;2"] none) =
     ranOf (followLines exFacts exDefs "select k from t".toList .text [strBytes "a;1", strBytes "b;2"] none) := by decide +kernel
 
-/-- **D63** (witness; open finding): follow mode, CSV format, aggregate statement. The one `OutputPrinter` of the run
+/-- **D65** (witness; open finding): follow mode, CSV format, aggregate statement. The one `OutputPrinter` of the run
 keeps its `first_line` state across the clears of the screen: the header is written on the first refresh only, whereas
 the batch program over the first two lines prints header and row. -/
-theorem d63_csv_header_only_on_first_screen :
+theorem d65_csv_header_only_on_first_screen :
     ranOf (followText exFacts exDefs "select count(*) as n from t".toList (.csv [59]) true (strBytes "a;1\nb;2\n")
       [.poll 8191, .poll 8191, .poll 8191]) =
       some (none, [.clear, .line (strBytes "n"), .line (strBytes "1"), .clear, .line (strBytes "2")]) ∧
